@@ -105,8 +105,8 @@ def build(ctx, evo):
         before = model.clone()
         name = "%s_s%d.sql" % (version(i), i)
         if st["writer"] == "hand":
-            text = L.render_hand_file(before, st["ops"], ctx.rand("evo", evo, "render", i), eol=st.get("eol"))
-            with open(os.path.join(mig, name), "w", newline="") as f:
+            text = L.render_hand_file(before, st["ops"], ctx.rand("evo", evo, "render", i), eol=st.get("eol"), bom=bool(st.get("bom")), tx=st.get("tx"))
+            with open(os.path.join(mig, name), "w", newline="", encoding="utf-8") as f:
                 f.write(text)
         for op in st["ops"]:
             L.apply_op(model, op)
@@ -121,16 +121,16 @@ def build(ctx, evo):
             if rc != 0 or len(new) != 1:
                 raise Skip("inconclusive", "diff-failed", {"rc": rc, "stderr": err[-600:], "stdout": out[-300:], "hcl": L.hcl(model), "step": i})
             os.rename(os.path.join(mig, new[0]), os.path.join(mig, name))
-            text = open(os.path.join(mig, name), newline="").read()
+            text = open(os.path.join(mig, name), newline="", encoding="utf-8").read()
             if st.get("inject"):
                 # review comments added to the planned file: excuse some of its destructive statements
                 text, _, _ = L.inject_nolint(text, ctx.rand("evo", evo, "inject", i))
-                with open(os.path.join(mig, name), "w", newline="") as fh:
+                with open(os.path.join(mig, name), "w", newline="", encoding="utf-8") as fh:
                     fh.write(text)
             if st.get("eol"):
                 # the planned file after a checkout that converts line endings (core.autocrlf)
                 text = L.with_eol(text, st["eol"], ctx.rand("evo", evo, "eol", i))
-                with open(os.path.join(mig, name), "w", newline="") as fh:
+                with open(os.path.join(mig, name), "w", newline="", encoding="utf-8") as fh:
                     fh.write(text)
         rc, out, err = ctx.atlas_run(["migrate", "hash", "--dir", "file://migrations"], d)
         if rc != 0:
@@ -199,7 +199,22 @@ def judge_file(f, rec, diags):
     virt = rec["virtual"]
     exc_alias = {n: e["t"] for e in exc_t.values() for n in e["names"]}
 
+    blocks, open_at = [], None
+    for i, x in enumerate(stmts):
+        w = x.text.lstrip("\ufeff").split(None, 1)[0].upper().rstrip(";") if x.text.strip("\ufeff \t\r\n") else ""
+        if w == "BEGIN" and open_at is None:
+            open_at = i
+        elif w in ("END", "COMMIT", "ROLLBACK") and open_at is not None:
+            if w == "END":
+                blocks.append((open_at, i))
+            open_at = None
+
     def span(a, b):
+        for bi, ei in blocks:
+            if bi < a and b < ei:
+                # BEGIN [TRANSACTION]; ..; END; is ONE (compound) statement for Atlas' SQLite statement scanner:
+                # anywhere inside the block is "on the statement"
+                return [(stmts[bi].start, stmts[ei].end)]
         # inside the text of the statement(s) proper: the byte offsets of the ORIGINAL file from the first character
         # of the (first) statement to the end of the (last) one; comments and blank lines above do not count
         return [(stmts[a].start, stmts[b].end)]
@@ -312,6 +327,7 @@ def judge_file(f, rec, diags):
     renamed = sorted(e["t"] for e in rec["tables"] if len(e["names"]) > 1)
     observed = {"cls": cls, "writer": writer, "exp_tables": len(exp_t), "exp_cols": len(exp_c), "virt": len(virt),
                 "readded": len(readded), "recreated": len(recreated), "renamed": len(renamed),
+                "bom": text.startswith("\ufeff"), "tx_blocks": len(blocks),
                 "nolint": [sorted(map(tuple, frules)), len(exc_t) + len(exc_c), len(all_t) + len(all_c)],
                 "after_rename": sorted({stmts[g[4] + 1].kind for g in groups if g[5] and g[4] + 1 < len(stmts)}),
                 "diags": sorted((d.get("Code"), len(L.diag_names(d.get("Text") or ""))) for d in diags),
@@ -367,12 +383,22 @@ def judge_window(ctx, case, n, rc, rep, out, err, verbose=False):
         fr = frs[0]
         if fr.get("Text") is not None and fr["Text"] != f["text"]:
             raise RuntimeError("c18: lint analysed a different text for %s" % f["name"])
-        diags = [d for r in (fr.get("Reports") or []) for d in (r.get("Diagnostics") or []) if str(d.get("Code", "")).startswith("DS1")]
+        diags = [dict(d) for r in (fr.get("Reports") or []) for d in (r.get("Diagnostics") or []) if str(d.get("Code", "")).startswith("DS1")]
+        if f["text"].startswith("\ufeff"):
+            # Pos is a byte offset; the byte order mark is 3 bytes and 1 character, the rest of our files is ASCII
+            for d in diags:
+                if isinstance(d.get("Pos"), int):
+                    d["BytePos"], d["Pos"] = d["Pos"], (0 if d["Pos"] < 3 else d["Pos"] - 2)
         other = [d.get("Code") for r in (fr.get("Reports") or []) for d in (r.get("Diagnostics") or []) if not str(d.get("Code", "")).startswith("DS1")]
         any_ds = any_ds or bool(diags)
         problems, observed, (exp_t, exp_c, virt, groups, stmts, readded, recreated, renamed, nol) = judge_file(f, recs[i], diags)
         if nol:
             ctx.count("nolint|%s|%s" % (nol, f["writer"]))
+        if f["text"].startswith("\ufeff"):
+            ctx.count("byte-order-mark|first-statement-is-%s|%s" % (stmts[0].kind if stmts else "none", "destructive" if (exp_t or exp_c) else "clean"))
+        txw = [x.text.strip().upper() for x in stmts if x.text.strip().upper() in ("END", "COMMIT")]
+        if txw and any(x.text.strip().upper().startswith("BEGIN") for x in stmts[:2]):
+            ctx.count("transaction-wrapper|BEGIN..%s|%s" % (txw[-1], "destructive" if (exp_t or exp_c) else "clean"))
         if f.get("eol", "lf") != "lf":
             ctx.count("line-endings|%s|%s|%s" % (f["eol"], f["writer"], "destructive" if (exp_t or exp_c) else "clean"))
         if recs[i].get("optional"):
@@ -479,7 +505,7 @@ def replay(ctx):
     mig = os.path.join(d, "migrations")
     os.makedirs(mig)
     for f in case["files"]:
-        with open(os.path.join(mig, f["name"]), "w", newline="") as fh:
+        with open(os.path.join(mig, f["name"]), "w", newline="", encoding="utf-8") as fh:
             fh.write(f["text"])
     rc, out, err = ctx.atlas_run(["migrate", "hash", "--dir", "file://migrations"], d)
     if rc != 0:
@@ -499,7 +525,7 @@ def main():
         sys.exit(2)
     if ctx.replay:
         sys.exit(replay(ctx))
-    nevo = ctx.pick(125, 500)
+    nevo = ctx.pick(145, 580)
     ctx.par(list(range(nevo)), lambda e: run_evolution(ctx, e))
     table = {}
     for k, v in ctx.counters.items():
